@@ -308,7 +308,21 @@ def static_tables(model, rep, P):
     A = oracles.asdl()
     printer_methods = model.methods(MP)
     mp_path = model.cls(MP).path
-    # EX1
+    # EX1 (a handler may be a method, a class-level alias, built by a factory in the class body, or installed with setattr at module level: the
+    # look-up is the interpreter's)
+    from ..absint import Interp as _I, ClassRef as _C, _MISSING
+    _interp = _I(model, 'python_minifier.module_printer', {})
+    _probe = []
+
+    def has_member(name):
+        if not _probe:
+            res = _interp.explore(lambda: _interp.construct(_C('ModulePrinter', MP), [], {}))
+            _probe.append(res[0][0][1] if res and res[0][0][0] == 'return' else None)
+        o = _probe[0]
+        if o is None:
+            return False
+        r = _interp.explore(lambda: _interp.member(o, name) is not _MISSING)
+        return bool(r and r[0][0][0] == 'return' and r[0][0][1] is True)
     inline = {'FormattedValue': 'python_minifier.f_string.FormattedValue', 'Load': None, 'Store': None, 'Del': None, 'TypeIgnore': None, 'Interactive': None, 'FunctionType': None}
     n = 0
     for name, c in sorted(A.items()):
@@ -319,7 +333,7 @@ def static_tables(model, rep, P):
             ok = inline['FormattedValue'] in model.classes and 'visit_JoinedStr' in printer_methods
             rep.check(ok, P + '.EX1', mp_path, 'FormattedValue', 'printed by the f-string module', 'no print path for FormattedValue', key=P + '.EX1|FormattedValue')
             continue
-        rep.check('visit_' + name in printer_methods, P + '.EX1', mp_path, name, 'visit_%s' % name, 'node class %s of the interpreter\'s grammar has no handler: printing it raises RuntimeError(Unknown node)' % name, key=P + '.EX1|' + name)
+        rep.check('visit_' + name in printer_methods or has_member('visit_' + name), P + '.EX1', mp_path, name, 'visit_%s' % name, 'node class %s of the interpreter\'s grammar has no handler: printing it raises RuntimeError(Unknown node)' % name, key=P + '.EX1|' + name)
     rep.floor(P + '.EX1', 95)
     # EX2 / TAB1
     sb = model.func(MP + '._suite_body')
@@ -336,7 +350,7 @@ def static_tables(model, rep, P):
         rep.note('%s.EX2: no literal statement dispatch table in _suite_body; whether every statement class is printed is decided by the ENUM1 cells' % P)
     else:
         for name in oracles.classes_of('stmt') + ['match_case']:
-            rep.check(keys.get(name) == 'self.visit_' + name, P + '.EX2', sb.loc(), 'statements[%r] = %s' % (name, keys.get(name)), 'dispatches to its handler',
+            rep.check(keys.get(name) in ('self.visit_' + name, 'visit_' + name), P + '.EX2', sb.loc(), 'statements[%r] = %s' % (name, keys.get(name)), 'dispatches to its handler',
                       'statement class %s %s' % (name, 'is missing from the dispatch table (KeyError when printed)' if name not in keys else 'is dispatched to %s' % keys[name]), key=P + '.EX2|' + name)
     if keys is not None:
         rep.floor(P + '.EX2', 28)
